@@ -13,37 +13,10 @@ extern "C" int LLVMFuzzerTestOneInput(const uint8_t *data, size_t size) {
     std::vector<uint32_t> ch;
     for (size_t i = 0; i + 1 < size; i += 2) ch.push_back((uint32_t) data[i] | ((uint32_t) data[i + 1] << 8));     // two bytes per choice
     Src s(ch);
-    size_t bufSel = s.range(0, 3), bufRaw = s.range(2, 48);
-    int queueLen = (int) s.range(1, 4);
-    size_t heapLen = s.range(1, 64);
-    int nm = (int) s.range(1, 4);
-    std::string stream;
-    MsgOpt mo;
-    for (int m = 0; m < nm; m++) {
-        mo.terminate = !s.prob(1, 8);
-        std::string msg = genMessage(s, W, mo);
-        if (s.prob(1, 3)) mutateBytes(s, msg);
-        stream += msg;
-    }
-    // half of the inputs get a buffer that holds the whole stream, the others a small one (overrun / boundary paths)
-    size_t bufLen = bufSel < 2 ? stream.size() + 1 + bufSel : bufSel == 2 ? bufRaw : std::min((size_t) 300, stream.size() / 2 + 2);
-    if (bufLen < 2) bufLen = 2;
-    Inst I(fuzzCfg(W, bufLen, queueLen, heapLen));
-    I.cfg.traceValues = false;
-    size_t pos = 0;
-    while (pos < stream.size()) {
-        size_t room = bufLen - 1 - I.ctx.buffer.position;
-        size_t len = s.prob(1, 40) ? room + s.range(1, 4) : s.range(1, std::max((size_t) 1, std::min(room, (size_t) 24)));
-        if (s.prob(1, 50)) { I.input("", 0); Classify::get().flushCalls++; }
-        if (len > stream.size() - pos) len = stream.size() - pos;
-        I.input(stream.data() + pos, (int) len);
-        pos += len;
-        I.trace.clear();
-        if (!I.invariant.empty()) fuzzFail(I.invariant);
-    }
-    I.input("", 0);
-    if (!I.invariant.empty()) fuzzFail(I.invariant);
-    Classify::get().note(I, stream);
-    I.drainErrors();
+    Inst *I = nullptr; std::string stream;
+    std::string bad = structCase(s, W, &I, &stream);
+    if (!bad.empty()) fuzzFail(bad);
+    Classify::get().note(*I, stream);
+    I->drainErrors();
     return 0;
 }
